@@ -611,6 +611,7 @@ typedef struct { cfg_t c; int desc; stripe_t s; uint8_t *data; uint8_t *twin; } 
 static nz_own_t nz_own[NZ_OWN];
 static int nz_nown;
 
+static uint8_t *nz_legacy_frag;      /* a fragment of the first own stripe whose payload checksum is the historical CRC (as an old writer left it) */
 static void nz_use(int desc, const cfg_t *c, int n, int k, int tol, uint64_t flen, uint8_t **frag, uint64_t round, uint8_t *twin)
 {
     /* decode with data loss (pattern varies per round), reconstruct, fragments_needed, metadata / validation queries */
@@ -636,6 +637,8 @@ static void nz_use(int desc, const cfg_t *c, int n, int k, int tol, uint64_t fle
     fragment_metadata_t md;
     liberasurecode_get_fragment_metadata((char *)frag[round % (uint64_t)n], &md);
     if (twin) liberasurecode_get_fragment_metadata((char *)twin, &md);
+    /* historical-CRC and standard-CRC fragments verified alternately while the main thread verifies its own */
+    if (twin && nz_legacy_frag) { liberasurecode_get_fragment_metadata((char *)nz_legacy_frag, &md); liberasurecode_get_fragment_metadata((char *)nz_own[0].s.frag[2], &md); }
     is_invalid_fragment(desc, (char *)frag[(round + 1) % (uint64_t)n]);
     liberasurecode_verify_stripe_metadata(desc, lst, cnt);
     liberasurecode_get_fragment_size(desc, (int)(round % 5000));
@@ -680,6 +683,10 @@ void noise_start(void)
         if (stripe_make(&o->s, o->desc, &o->c, o->data, len) != 0) { liberasurecode_instance_destroy(o->desc); free(o->data); continue; }
         o->twin = malloc(o->s.flen); memcpy(o->twin, o->s.frag[0], o->s.flen);
         { uint8_t t[REF_HDR_LEN]; ref_hdr_twin(o->s.frag[0], t, 0); memcpy(o->twin, t, REF_HDR_LEN); }
+        if (nz_nown == 0 && o->c.ct == CHKSUM_CRC32 && o->s.flen > 80 && !nz_legacy_frag) {
+            nz_legacy_frag = malloc(o->s.flen); memcpy(nz_legacy_frag, o->s.frag[1], o->s.flen);
+            ref_put32(nz_legacy_frag + REF_OFF_CHKSUM, crc_legacy(nz_legacy_frag + 80, o->s.flen - 80)); ref_hdr_reseal(nz_legacy_frag, 1);
+        }
         nz_nown++;
     }
     atomic_store(&nz_quit, 0);
